@@ -158,6 +158,12 @@ CHECKS = {
         text='Every case inside the bound runs on the real code: adjusted values equal theta - (S - s_obs) beta from lstsq on the rows finite for that parameter, output length/order equal the finite rows, rows at the observed summaries are unchanged, the result is invariant under invertible affine re-expression and summary reordering, a reused adjustment object equals a fresh one; compare_models sums to one, equals share/n_sim x weight normalised (exact rationals), permutes with the models, and on a tie at the cut corresponds to some valid split.',
         note='Trusted: numpy.linalg.lstsq and fractions. Scalar parameters/summaries, small well-conditioned data, rtol 1e-8; rank-deficient finite rows: any least-squares slope accepted; a parameter with no finite row may raise; no nan in compared discrepancies.',
         design_ref='4 C17'),
+    'C13': dict(
+        level='exploration',
+        technique='bounded product enumeration of small-alphabet inputs against elfi-free definitional oracles (exact rationals for quantile / variance / ESS, a written-out normal density for the mixture), plus a stateless DFS over every per-row accept/reject answer sequence of a scripted constraint driving the real GMDistribution.rvs',
+        text='Every sample / weight vector / alpha / rescaling / dtype combination inside the stated alphabets runs on the real weighted_sample_quantile (also through Sample.sample_quantiles and the 95% intervals), weighted_var, compute_ess and normalize_weights; the quantile definition (element of the sample, W(<=q) >= alpha, W(<q) <= alpha), monotonicity and scale invariance are decided exactly, with ties, zeros, unsorted input, single elements and alpha on cumulative boundaries as alphabet symbols. GM pdf/logpdf are compared on dims 1..3 x 1..3 components x covariance forms x weight vectors x argument shapes; for rvs the complete answer tree ((R+1)^size executions per configuration) is executed and each execution must return exactly size rows drawn from the accepted proposals.',
+        note="Bounds: n <= 4/5, weights <= 3, d <= 3, k <= 3, size <= 4/6, R <= 3/6; all-zero weights excluded. Tolerances 1e-11 (variance/ESS) and 1e-9 (density) on a fixed well-conditioned grid. Trusted: exact-rational oracles, numpy/scipy linear algebra, horizon 'forced accept after R rounds'.",
+        design_ref='4 C13'),
     'C15': dict(
         level='model_checking',
         technique='explicit-state BFS to closure over the real get_sub_seed cache states (all index requests in every '
